@@ -40,13 +40,18 @@ func doReplay(prop string, scens []Scen, path string) int {
 		return 2
 	}
 	sc := scens[idx]
-	x := vsched.Run(r.Choices, vsched.Config{Trace: sc.Horizon == 0, Horizon: sc.Horizon}, sc.Body)
-	fmt.Println(strings.Join(x.Trace, "\n"))
-	msg, key := judgeExec(sc, x)
-	fmt.Printf("observation: %s\n", sc.Obs(x))
-	if msg != "" {
-		fmt.Printf("VIOLATION property=%s replay=%s\n  key=%s\n  %s\n", prop, path, key, msg)
-		return 1
+	// code under test that makes choices of its own under a fixed schedule (map iteration) may need a few runs
+	for attempt := 0; attempt < 10; attempt++ {
+		x := vsched.Run(r.Choices, vsched.Config{Trace: sc.Horizon == 0, Horizon: sc.Horizon}, sc.Body)
+		msg, key := judgeExec(sc, x)
+		if msg != "" || attempt == 9 {
+			fmt.Println(strings.Join(x.Trace, "\n"))
+			fmt.Printf("observation: %s\n", sc.Obs(x))
+		}
+		if msg != "" {
+			fmt.Printf("VIOLATION property=%s replay=%s\n  key=%s\n  %s\n", prop, path, key, msg)
+			return 1
+		}
 	}
 	fmt.Println("replay: property holds on this schedule")
 	return 0
